@@ -45,7 +45,7 @@ _BS = ["C15:bitstack_push.height_plus_one", "C15:bitstack_push.sets_top_bit", "C
        "C15:bitstack_push.frame_all_other_bits"]
 _BP = ["C15:bitstack_pop.none_iff_empty", "C15:bitstack_pop.empty_unchanged", "C15:bitstack_pop.height_minus_one",
        "C15:bitstack_pop.returns_top_bit", "C15:bitstack_pop.lower_bits_unchanged"]
-_BPP = ["C15:bitstack_push_pop.lifo", "C15:bitstack_push_pop.height_restored", "C15:bitstack_push_pop.contents_restored"]
+_BPP = ["C15:bitstack_lifo.lifo", "C15:bitstack_lifo.height_restored", "C15:bitstack_lifo.contents_restored"]
 
 HARNESSES = [
     dict(name="bitstack_push", fn="BitStack128::push", props=("C15", "C11"), kind="complete", tags=_BS),
